@@ -9,7 +9,7 @@ import TrompModel.Model.Ring
 namespace Tromp.Cxx
 
 /-- `list<T, Disposer>::push_front` — translated from include/trompeloeil/mock.hpp:1593 -/
-def ring_push_front (this t : Ring.Ptr) (h0 : Ring.Heap) : Ring.Heap := Id.run do
+def ring_push_front (this t : Ring.Ptr) (h0 : Ring.Heap Ring.Ptr) : Ring.Heap Ring.Ptr := Id.run do
   let mut h := h0
   h := h.setNext t (h.next this)
   h := h.setPrev t this
